@@ -251,4 +251,46 @@ CLAIMED["C11"] = {
                  "tagging-AEAD instantiation + trace predicate",
 }
 
+CLAIMED["C12"] = {
+    "design_ref": "DESIGN.md §4 C12, notes/C12.md",
+    "text": "Proved on an executable model of the ChannelArbitrator's decision logic (shouldGoOnChain with uint32 "
+            "arithmetic, check{Local,Remote,RemoteDangling,RemoteDiff}ChainActions, the StateDefault/ContractClosed "
+            "consumers, prepContractResolutions): a block at or past the cut-off of an HTLC the node must act on gives "
+            "exactly one force close (also over any list of block epochs), no force close without a justifying HTLC and "
+            "never for unclaimable received HTLCs; when a commitment confirms without a prior broadcast every HTLC output "
+            "gets one resolver, received dust is closed out once and every must-fail offered HTLC is failed back exactly "
+            "once; no fail-back for an HTLC with an output on the confirmed commitment. On the broadcast path the full "
+            "classification is REFUTED for current lnd (Coq witness replayed on the real arbitrator: known finding "
+            "C12-F1); the remaining conjuncts and at-most-once are proved. Tie: real ChannelArbitrator + real bolt log "
+            "with mock chain/switch/registry on seeded and exhaustive small universes of HTLC-set triples x heights x "
+            "preimage knowledge x triggers; states, ForceCloseChan calls, fail-backs, final outcomes and inserted "
+            "resolvers compared per operation + independent predicate from the property text.",
+    "note": "Resolver progress after insertion belongs to C13. Hypotheses stated in the theorems: unique HTLC indexes "
+            "per commitment/direction, one resolution per HTLC output supplied by lnwallet, offered HTLCs on our "
+            "commitment are on the confirmed one. Harness does not start the arbitrator goroutine. Trusted: Coq kernel, "
+            "harness, python predicate.",
+    "technique": "Coq proof over the decision model + differential correspondence on the real ChannelArbitrator + "
+                 "predicate on the implementation trace",
+}
+CLAIMED["C19"] = {
+    "design_ref": "DESIGN.md §4 C19, notes/C19.md",
+    "text": "Proved on the Route model: the executable checker route_valid is sound for every clause of the property "
+            "(connected over existing enabled policies; per-hop min/max/capacity/first-hop bandwidth; each forwarding "
+            "node keeps >= outbound+inbound fee floored at 0 and >= its delta; fee/CLTV limits, outgoing-channel, last-hop, "
+            "ignore restrictions; payload fits), newRoute's amounts and time locks add up to its totals, every "
+            "forwarding hop of an accepted route passes the C09 forwarding rule (Policy model, machine and spec), "
+            "getEdge soundness, and the relaxation invariant: any route built from accepted processEdge relaxations "
+            "passes the checker. Tie: real findPath + newRoute + edgeUnifier.getEdge on seeded multigraphs with "
+            "boundary-directed variants (every limit at exactly the needed value +-1); every returned route is checked "
+            "by route_valid, compared with the model's new_route and relax replay (vm_compute), and by an independent "
+            "python predicate incl. the real sphinx payload size.",
+    "note": "Chain stability (a popped entry is never rewritten) is argued in notes/C19.md, not proved (needs "
+            "probabilities <= 1 and amt*delta*15 < 2^63); it is what the per-route checker run guards. Optimality and "
+            "probability not claimed. Blinded tails and Go integer wrap outside the model (amounts <= 10^11 msat "
+            "generated). Payload sizes are an oracle measured on the real sphinx path. Trusted: Coq kernel, harness, "
+            "python predicate.",
+    "technique": "Coq proof (induction over paths, fold invariants, link to the C09 model) + differential harness on "
+                 "real findPath/newRoute/getEdge + predicate on every returned route",
+}
+
 NOT_CLAIMED = {}
